@@ -96,7 +96,7 @@ def harness(it, px, params):
     px.get_model()
     # deep templates are also run REPEAT more times before the follow-up (state leaked per failure adds up)
     rep = params.get('repeat', 0) if (fault and tid in REPEATED) else 0
-    res = es.run_template(it, px, toks, vars_, frets, fault_at=fault, fault_kind=fkind, use_globals=True, followup=followup, repeat=rep)
+    res = es.run_template(it, px, toks, vars_, frets, fault_at=fault, fault_kind=fkind, use_globals=True, followup=followup, repeat=rep, accelerate=True)
     if rep:
         px.cover('repeated-failures')
     rec = {'tpl': tid, 'text': res['text'], 'fault_at': fault, 'fault_kind': fkind, 'outcome': res['got'].kind, 'want': res['want_kind'], 'log': res['log_m']}
@@ -114,8 +114,14 @@ def harness(it, px, params):
     if fo['get'] != 'ret':
         probs.append(('followup-get-' + fo['get'], 'get_variable on the same context fails afterwards'))
     m = res.get('cex_model') or px.get_model()
+    extra = 0
+    if res.get('accel_k') is not None:
+        # leak acceleration (evalsem.accelerate_leaks): two real failing evaluations, then k more represented symbolically
+        extra = 1 + m.eval(res['accel_k'], model_completion=True).as_long()
+        px.cover('leak-accelerated')
+        rec['accelerated'] = res['accel_cells']
     rec['witness'] = {'vars': {nm: sv.concrete(v, m) for nm, v in vars_.items()}, 'funcs': {nm: sv.concrete(v, m) for nm, v in frets.items()},
-                      'fault_at': fault, 'fault_kind': fkind, 'repeat': rep}
+                      'fault_at': fault, 'fault_kind': fkind, 'repeat': rep, 'repeat_fresh': extra}
     for cause, desc in probs:
         px.finding({'key': 'C15|%s|%s|%s' % (cause, tid, fkind), 'desc': '`%s` (%s at invocation %d): %s' % (res['text'], fkind, fault, desc),
                     'text': res['text'], 'tpl': tid, 'witness': rec['witness'], 'cause': cause})
@@ -149,6 +155,15 @@ def scenario(text, witness):
     for _ in range(witness.get('repeat', 0)):
         steps.append({'op': 'reset_counter'})
         steps.append({'op': 'execute', 'hex': text.encode().hex(), 'ctx': 'c'})
+    for _ in range(witness.get('repeat_fresh', 0)):
+        # the same failing evaluation again, each time on a fresh context with the same bindings (leak acceleration witness)
+        steps.append({'op': 'reset_counter'})
+        steps.append({'op': 'ctx_new', 'ctx': 'r'})
+        for n, v in sorted(witness['vars'].items()):
+            steps.append({'op': 'ctx_set_var', 'ctx': 'r', 'name': n.encode().hex(), 'value': v})
+        for n, v in sorted(witness['funcs'].items()):
+            steps.append({'op': 'ctx_set_func', 'ctx': 'r', 'name': n.encode().hex(), 'handler': handler_spec(n, 'const', witness, v)})
+        steps.append({'op': 'execute', 'hex': text.encode().hex(), 'ctx': 'r'})
     steps.append({'op': 'execute', 'hex': FOLLOWUP.encode().hex(), 'ctx': 'c'})
     steps.append({'op': 'ctx_get', 'ctx': 'c', 'name': b'x'.hex()})
     return steps
@@ -207,7 +222,8 @@ def concrete_reference(text, witness):
 
 def four(obs, witness):
     """[execute, ctx_dump, follow-up execute, ctx_get] out of a scenario's observations (repeats in between skipped)"""
-    i = len(obs) - 4 - 2 * witness.get('repeat', 0)
+    per_fresh = 3 + len(witness.get('vars', {})) + len(witness.get('funcs', {}))
+    i = len(obs) - 4 - 2 * witness.get('repeat', 0) - per_fresh * witness.get('repeat_fresh', 0)
     return [obs[i], obs[i + 1], obs[-2], obs[-1]]
 
 
